@@ -134,8 +134,60 @@ func runC15(r *run) {
 			emit(caseT{"spaceless", (&world{}).args("{% spaceless %}"+sb.String()+"{% endspaceless %}", nil)})
 		}
 	}
-	driveCases(r, gen, execC15)
+	driveCases(r, func(emit func(caseT)) {
+		gen(emit)
+		// block options switched on for ONE template (not the set): the files it includes - named
+		// by a literal or by an expression - are templates of their own and keep the set's options
+		for i := 0; i < 64; i++ {
+			emit(caseT{"tplopts", []string{fmt.Sprint(i)}})
+		}
+		// spaceless reached again while its body is being rendered (a macro that calls itself)
+		for i := 0; i < 40; i++ {
+			g := rg.fork(uint64(2000000 + i))
+			pieces := []string{"<li>", "</li>", " ", "\n", "<b>", "</b>", "x", " <i> ", "t "}
+			var pre, post strings.Builder
+			for k := 0; k < 1+g.intn(4); k++ {
+				pre.WriteString(g.pick(pieces))
+				post.WriteString(g.pick(pieces))
+			}
+			src := "{% macro tree(n) %}{% spaceless %}" + pre.String() + "{{ n }}{% if n > 0 %} {{ tree(n - 1) }} {% endif %}" + post.String() + "{% endspaceless %}{% endmacro %}{{ tree(" + fmt.Sprint(g.intn(4)) + ") }}"
+			emit(caseT{"render", append((&world{}).args(src, nil), "-", "-", "norefcheck")})
+		}
+	}, execC15)
 	r.finish(nil)
+}
+
+func execTplOpts(r *run, c caseT) {
+	var i int
+	fmt.Sscanf(c.args[0], "%d", &i)
+	trim, lstrip := i&1 != 0, i&2 != 0
+	partial := []string{"  {% if a %}\nP\n\t{% endif %}\nQ\n", "{% for q in lst %}\n {{ q }}\n  {% endfor %}\n", "\n{% if a %}\n{% endif %}\n", "plain\n  text\n"}[(i>>2)&3]
+	pageTpl := []string{"A\n  {% if a %}\nB\n  {% endif %}\n[@1@]\n", "{% for q in lst %}\n<@1@>\n  {% endfor %}\n@2@", "  {% with z=1 %}\n@2@\n{% endwith %}\n@1@"}[(i>>4)%3]
+	page := strings.ReplaceAll(strings.ReplaceAll(pageTpl, "@1@", "{% include nm %}"), "@2@", "{% include \"p.tpl\" %}")
+	ctx := func() pongo2.Context { return pongo2.Context{"a": 1, "lst": []int{1, 2}, "nm": "p.tpl"} }
+	set := pongo2.NewSet("tplopts", newMemLoader(map[string]string{"p.tpl": partial}))
+	// the partial alone, under the set's options (off)
+	pOut, perr := set.RenderTemplateFile("p.tpl", ctx())
+	must(perr)
+	// the page's own text under the template's options
+	skel := pongo2.NewSet("tplopts-skel", newMemLoader(nil))
+	st, serr := skel.FromString(strings.ReplaceAll(strings.ReplaceAll(pageTpl, "@1@", "{% firstof \"@1@\" %}"), "@2@", "{% firstof \"@2@\" %}"))
+	must(serr)
+	st.Options.TrimBlocks, st.Options.LStripBlocks = trim, lstrip
+	sOut, serr2 := st.Execute(ctx())
+	must(serr2)
+	want := strings.ReplaceAll(strings.ReplaceAll(sOut, "@1@", pOut), "@2@", pOut)
+	tpl, err := set.FromString(page)
+	must(err)
+	tpl.Options.TrimBlocks, tpl.Options.LStripBlocks = trim, lstrip
+	got, xerr := tpl.Execute(ctx())
+	again, xerr2 := tpl.Execute(ctx())
+	id := r.emit(c.op, c.args, "tplopts")
+	r.nontrivial("tplopts" + c.args[0])
+	if xerr != nil || xerr2 != nil || got != want || again != want {
+		r.reject(id, "block options of one template changed how the files it includes are rendered (or were not applied to its own text)", map[string]any{"page": page, "partial": partial,
+			"trim_blocks": trim, "lstrip_blocks": lstrip, "observed": got, "second_execution": again, "expected": want})
+	}
 }
 
 // c15Build gives the marked source and the source from which the named white space was
@@ -262,6 +314,10 @@ func spacelessRef(s string) string {
 }
 
 func execC15(r *run, c caseT) {
+	if c.op == "tplopts" {
+		execTplOpts(r, c)
+		return
+	}
 	w, src, ctx := worldFromArgs(c.args)
 	o, _ := w.render(src, false, ctx)
 	id := r.emit(c.op, c.args, o.obs)
@@ -279,6 +335,10 @@ func execC15(r *run, c caseT) {
 			r.reject(id, "spaceless does not remove exactly the white space between two tags", map[string]any{"body": body, "observed": o.obs, "expected": spacelessRef(body)})
 		}
 		return
+	}
+	if len(c.args) > 9 && c.args[9] == "norefcheck" {
+		r.nontrivial(c.args[0])
+		return // compared with the model only
 	}
 	stripped := unhx(c.args[9])
 	plain := &world{}
